@@ -402,24 +402,3 @@ Theorem bond_spelling_rejected :
   tokenize_raw "C-;" = Err IncorrectSmarts /\ tokenize_raw "C-;!" = Err IncorrectSmarts.
 Proof. vm_compute. repeat split; reflexivity. Qed.
 
-(* ------------------------------------------------------------------------------------------------------------ *)
-(* 6. query_roundtrip (partial): printing a parsed bracket body in the documented canonical form
-      [isotope]elements[@|@@][charge];D..;h..;r..|!R;x..;z..|a;M:map  and parsing it back gives the same record.
-      Shown here for a finite family (7200 records: every combination of 2 isotopes, 5 element spellings, 3 stereo marks,
-      5 charges, 12 primitive configurations, masked or not, mapped or not), NOT for all records of the documented subset:
-      the general statement (induction over the digit strings and the four scans) is not proved.                     *)
-Definition roundtrip_ok (p : parsed) : bool := pyres_eqb parsed_eqb (query_parse (spell_query p)) (Ok p).
-Definition rt_prims : list (option (list Z) * option (list Z) * option ival * option (list Z) * option ival) :=
-  [(None, None, None, None, None); (Some [0], None, None, None, None); (Some [1; 2; 14], None, None, None, None);
-   (None, Some [0; 3], None, None, None); (None, None, Some (IInt 0), None, None); (None, None, Some (IList [5; 6; 14]), None, None);
-   (None, None, None, Some [1], None); (None, None, None, None, Some (IInt 4)); (None, None, None, None, Some (IList [1; 2]));
-   (Some [2], Some [1], Some (IList [6]), Some [0; 1], Some (IList [2; 4])); (Some [3; 4], None, Some (IInt 0), None, Some (IInt 4));
-   (None, Some [10], Some (IList [3; 100]), Some [12], None)].
-Definition rt_family : list parsed :=
-  flat_map (fun iso => flat_map (fun els => flat_map (fun st => flat_map (fun chg => flat_map (fun pr => flat_map (fun msk => map (fun mp =>
-     let '(nb, h, rings, het, hyb) := pr in mkParsed iso chg mp st els nb h rings het hyb msk)
-  [None; Some 120]) [false; true]) rt_prims) [None; Some 1; Some (-1); Some 2; Some (-4)]) [None; Some true; Some false])
-  [[ESym (s2l "C")]; [ESym (s2l "Cl")]; [ENum 118]; [ESym (s2l "C"); ESym (s2l "N")]; [ENum 6; ENum 7; ESym (s2l "Br")]])
-  [None; Some 13].
-Theorem query_roundtrip_partial : Z.of_nat (List.length rt_family) = 7200 /\ forallb roundtrip_ok rt_family = true.
-Proof. vm_compute. split; reflexivity. Qed.
